@@ -229,10 +229,12 @@ func (s *TreeShapeListener) exitSetOrSequence_type(
 		SourceContexts: type1.SourceContexts,
 		Opt:            type1.Opt,
 		Attrs:          type1.Attrs,
+		Docstring:      type1.Docstring,
 	}
 	s.setCurrentType(newType1)
 
 	type1.Opt = false
+	type1.Docstring = ""
 
 	if type1.Attrs != nil {
 		type1.Attrs = nil
